@@ -42,10 +42,11 @@ type FakeNet struct {
 	pollWorkers int
 	onDial      func(addr string)
 	silent      map[string]bool // connections dialled to these addresses never hear from the server
+	holdDial    map[string]bool // dials to these addresses take long (until released)
 }
 
 func newNet() *FakeNet {
-	return &FakeNet{lis: map[string]*FakeLis{}, dials: map[string]int{}, failed: map[string]int{}, live: map[string]int{}, maxLive: map[string]int{}, pollWorkers: 1, silent: map[string]bool{}}
+	return &FakeNet{lis: map[string]*FakeLis{}, dials: map[string]int{}, failed: map[string]int{}, live: map[string]int{}, maxLive: map[string]int{}, pollWorkers: 1, silent: map[string]bool{}, holdDial: map[string]bool{}}
 }
 
 type fakeSock struct{ n *FakeNet }
@@ -57,6 +58,9 @@ func (s *fakeSock) Scheme() string                  { return "fake" }
 func (s *fakeSock) Dial(addr string) (socket.Conn, error) {
 	n := s.n
 	vs.Block("env:dial "+addr, nil)
+	if n.holdDial[addr] {
+		vs.Block("env:dial "+addr+" (slow)", func() bool { return !n.holdDial[addr] })
+	}
 	l := n.lis[addr]
 	if l == nil || l.closed {
 		n.failed[addr]++
@@ -95,10 +99,10 @@ func (s *fakeSock) Listen(addr string) (socket.Listener, error) {
 
 // FakeLis is a fake socket.Listener; ServeMessages emulates netpoll.
 type FakeLis struct {
-	n        *FakeNet
-	addr     string
-	q        []*FakeConn
-	accepted []*FakeConn
+	n         *FakeNet
+	addr      string
+	q         []*FakeConn
+	accepted  []*FakeConn
 	closed    bool
 	accepting bool // the server has reached its accept loop (its listener is registered)
 	obj       vs.Obj
